@@ -64,6 +64,197 @@ theorem idFold_refs (evs : List IdEv) (st : IdSt) :
       · rw [idStep_idref_known h]; simp; grind
       · rw [idStep_idref_new h]; simp; grind
 
+/-! ### ID occurrences with binders (XSD 1.1 `id_list`) -/
+
+def bindsOf (evs : List BEv) : List (String × Nat) :=
+  evs.filterMap fun | .id v b => some (v, b) | _ => none
+def brefsOf (evs : List BEv) : List String := evs.filterMap fun | .idref v => some v | _ => none
+
+/-- every ID value is bound to one element -/
+def Consistent (bs : List (String × Nat)) : Prop := ∀ v b1 b2, (v, b1) ∈ bs → (v, b2) ∈ bs → b1 = b2
+
+theorem Consistent.congr {l1 l2 : List (String × Nat)} (h : ∀ x, x ∈ l1 ↔ x ∈ l2) :
+    Consistent l1 ↔ Consistent l2 := by
+  unfold Consistent
+  constructor
+  · intro c v b1 b2 h1 h2; exact c v b1 b2 ((h _).mpr h1) ((h _).mpr h2)
+  · intro c v b1 b2 h1 h2; exact c v b1 b2 ((h _).mp h1) ((h _).mp h2)
+
+theorem lookB_some {v : String} {seen : List (String × Nat)} {b : Nat} (h : lookB v seen = some b) :
+    (v, b) ∈ seen := by
+  induction seen with
+  | nil => simp [lookB] at h
+  | cons p r ih =>
+    obtain ⟨w, c⟩ := p
+    simp only [lookB] at h
+    split at h
+    · next e => cases h; subst e; exact List.mem_cons_self
+    · exact List.mem_cons_of_mem _ (ih h)
+
+theorem lookB_none {v : String} {seen : List (String × Nat)} (h : lookB v seen = none) (b : Nat) :
+    (v, b) ∉ seen := by
+  induction seen with
+  | nil => simp
+  | cons p r ih =>
+    obtain ⟨w, c⟩ := p
+    simp only [lookB] at h
+    split at h
+    · cases h
+    · next e =>
+      intro hm
+      rcases List.mem_cons.mp hm with hm | hm
+      · cases hm; exact e rfl
+      · exact ih h hm
+
+theorem lookB_cons (x v : String) (b : Nat) (seen : List (String × Nat)) :
+    lookB x ((v, b) :: seen) = none ↔ x ≠ v ∧ lookB x seen = none := by
+  simp only [lookB]
+  by_cases e : v = x
+  · simp [e]
+  · have e' : ¬ x = v := fun h => e h.symm
+    simp [e, e']
+
+theorem collapse_ids (evs : List BEv) (seen : List (String × Nat)) (hs : Consistent seen) :
+    ((idsOf (collapseAux seen evs)).Nodup ∧ ∀ x ∈ idsOf (collapseAux seen evs), lookB x seen = none) ↔
+      Consistent (seen ++ bindsOf evs) := by
+  induction evs generalizing seen with
+  | nil => simp [collapseAux, bindsOf, hs]
+  | cons e r ih =>
+    cases e with
+    | idref v =>
+      have : bindsOf (.idref v :: r) = bindsOf r := rfl
+      simp only [collapseAux, idsOf_cons_idref, this]
+      exact ih seen hs
+    | id v b =>
+      have hb : bindsOf (.id v b :: r) = (v, b) :: bindsOf r := rfl
+      rw [hb]
+      simp only [collapseAux]
+      cases hl : lookB v seen with
+      | some b0 =>
+        have hm := lookB_some hl
+        simp only
+        by_cases e : b0 = b
+        · subst e
+          rw [if_pos rfl, ih seen hs]
+          apply Consistent.congr
+          intro x
+          simp only [List.mem_append, List.mem_cons]
+          constructor
+          · rintro (h | h); exact Or.inl h; exact Or.inr (Or.inr h)
+          · rintro (h | h | h); exact Or.inl h; exact Or.inl (h ▸ hm); exact Or.inr h
+        · rw [if_neg e]
+          constructor
+          · intro ⟨_, h⟩
+            have := h v (by simp)
+            rw [hl] at this; cases this
+          · intro c
+            exact absurd (c v b0 b (by simp [hm]) (by simp)) e
+      | none =>
+        have hs' : Consistent ((v, b) :: seen) := by
+          intro w b1 b2 h1 h2
+          rcases List.mem_cons.mp h1 with h1 | h1 <;> rcases List.mem_cons.mp h2 with h2 | h2
+          · cases h1; cases h2; rfl
+          · cases h1; exact absurd h2 (lookB_none hl _)
+          · cases h2; exact absurd h1 (lookB_none hl _)
+          · exact hs w b1 b2 h1 h2
+        have i := ih ((v, b) :: seen) hs'
+        simp only [idsOf_cons_id, List.nodup_cons, List.mem_cons, forall_eq_or_imp, hl, true_and]
+        have hc : Consistent (seen ++ (v, b) :: bindsOf r) ↔ Consistent (((v, b) :: seen) ++ bindsOf r) := by
+          apply Consistent.congr
+          intro x
+          simp only [List.mem_append, List.mem_cons, List.cons_append]
+          constructor
+          · rintro (h | h | h); exact Or.inr (Or.inl h); exact Or.inl h; exact Or.inr (Or.inr h)
+          · rintro (h | h | h); exact Or.inr (Or.inl h); exact Or.inl h; exact Or.inr (Or.inr h)
+        rw [hc, ← i]
+        simp only [lookB_cons]
+        constructor
+        · intro ⟨⟨h1, h2⟩, h3⟩
+          exact ⟨h2, fun x hx => ⟨fun e => h1 (e ▸ hx), h3 x hx⟩⟩
+        · intro ⟨h2, h3⟩
+          exact ⟨⟨fun hx => (h3 v hx).1 rfl, h2⟩, fun x hx => (h3 x hx).2⟩
+
+theorem collapse_refs (evs : List BEv) (seen : List (String × Nat)) :
+    refsOf (collapseAux seen evs) = brefsOf evs := by
+  induction evs generalizing seen with
+  | nil => rfl
+  | cons e r ih =>
+    cases e with
+    | idref v =>
+      have : brefsOf (.idref v :: r) = v :: brefsOf r := rfl
+      simp [collapseAux, this, ih]
+    | id v b =>
+      have : brefsOf (.id v b :: r) = brefsOf r := rfl
+      simp only [collapseAux, this]
+      cases lookB v seen with
+      | some b0 => simp only; split <;> simp [ih]
+      | none => simp [ih]
+
+theorem collapse_mem (evs : List BEv) (seen : List (String × Nat)) (x : String) :
+    (x ∈ idsOf (collapseAux seen evs) ∨ (lookB x seen).isSome = true) ↔
+      ((∃ b, (x, b) ∈ bindsOf evs) ∨ (lookB x seen).isSome = true) := by
+  induction evs generalizing seen with
+  | nil => simp [collapseAux, bindsOf]
+  | cons e r ih =>
+    cases e with
+    | idref v =>
+      have : bindsOf (.idref v :: r) = bindsOf r := rfl
+      simp only [collapseAux, idsOf_cons_idref, this]
+      exact ih seen
+    | id v b =>
+      have hb : bindsOf (.id v b :: r) = (v, b) :: bindsOf r := rfl
+      rw [hb]
+      simp only [collapseAux]
+      cases hl : lookB v seen with
+      | some b0 =>
+        simp only
+        have hv : x = v → (lookB x seen).isSome = true := fun e => by rw [e, hl]; rfl
+        split
+        · rw [ih seen]
+          simp only [List.mem_cons, Prod.mk.injEq]
+          constructor
+          · rintro (⟨b', h⟩ | h); exact Or.inl ⟨b', Or.inr h⟩; exact Or.inr h
+          · rintro (⟨b', h | h⟩ | h); exact Or.inr (hv h.1); exact Or.inl ⟨b', h⟩; exact Or.inr h
+        · simp only [idsOf_cons_id, List.mem_cons, Prod.mk.injEq]
+          have := ih seen
+          constructor
+          · rintro ((h | h) | h)
+            · exact Or.inr (hv h)
+            · rcases this.mp (Or.inl h) with ⟨b', h'⟩ | h'
+              · exact Or.inl ⟨b', Or.inr h'⟩
+              · exact Or.inr h'
+            · exact Or.inr h
+          · rintro (⟨b', h | h⟩ | h)
+            · exact Or.inr (hv h.1)
+            · rcases this.mpr (Or.inl ⟨b', h⟩) with h' | h'
+              · exact Or.inl (Or.inr h')
+              · exact Or.inr h'
+            · exact Or.inr h
+      | none =>
+        have i := ih ((v, b) :: seen)
+        simp only [idsOf_cons_id, List.mem_cons, Prod.mk.injEq]
+        have hx : (lookB x ((v, b) :: seen)).isSome = true ↔ (x = v ∨ (lookB x seen).isSome = true) := by
+          simp only [lookB]
+          by_cases e : v = x
+          · simp [e]
+          · simp [e]; intro h; exact absurd h.symm e
+        rw [hx] at i
+        constructor
+        · rintro ((h | h) | h)
+          · exact Or.inl ⟨b, Or.inl ⟨h, rfl⟩⟩
+          · rcases i.mp (Or.inl h) with ⟨b', h'⟩ | h' | h'
+            · exact Or.inl ⟨b', Or.inr h'⟩
+            · exact Or.inl ⟨b, Or.inl ⟨h', rfl⟩⟩
+            · exact Or.inr h'
+          · exact Or.inr h
+        · rintro (⟨b', h | h⟩ | h)
+          · exact Or.inl (Or.inl h.1)
+          · rcases i.mpr (Or.inl ⟨b', h⟩) with h' | h' | h'
+            · exact Or.inl (Or.inr h')
+            · exact Or.inl (Or.inl h')
+            · exact Or.inr h'
+          · exact Or.inr h
+
 /-! ### field tuples and counters -/
 
 def wrap (t : List Val) : Tuple := t.map some
@@ -428,7 +619,7 @@ mutual
 theorem nsWalk_spec : ∀ (n : Node) (L : Nat) (m : NsMap) (S : List NsCtx), n.sibOk = true →
     (∀ x ∈ S, x.level < L) →
     n.nsWalk L (entered m S n.id L n.xmlns) = (n.scopes m, entered m S n.id L n.xmlns)
-  | .mk i d nm a t x xm kids, L, m, S, hs, hS => by
+  | .mk i d nm a t x ck xm kids, L, m, S, hs, hS => by
     simp only [Node.sibOk, Bool.and_eq_true, decide_eq_true_eq] at hs
     have hT : ∀ y ∈ (entered m S i L xm).stack, y.level < L + 1 := by
       intro y hy
